@@ -10,10 +10,14 @@
 mod c13;
 mod cfg;
 mod gen;
+mod meta;
 mod oracle;
+mod packed;
 mod report;
 mod sem;
+mod stream;
 mod util;
+mod walk;
 
 use report::{Ctx, Report, Tier};
 use util::J;
@@ -34,6 +38,14 @@ fn run_monitor(prop: &str, ctx: &Ctx, rep: &mut Report) -> Result<(), String> {
         "C09" => sem::run_c09(ctx, rep),
         "C14" => sem::run_c14(ctx, rep),
         "C13" => c13::run(ctx, rep),
+        "C04" => walk::run_c04(ctx, rep),
+        "C16" => walk::run_c16(ctx, rep),
+        "C07" | "C08" | "C18" => stream::run(prop, ctx, rep),
+        "C06" => packed::run(ctx, rep),
+        "C05" => meta::run_c05(ctx, rep),
+        "C10" => meta::run_c10(ctx, rep),
+        "C11" => meta::run_c11(ctx, rep),
+        "C12" => meta::run_c12(ctx, rep),
         _ => return Err(format!("unknown property {}", prop)),
     }
     Ok(())
@@ -43,6 +55,14 @@ fn replay_monitor(prop: &str, case: &J, rep: &mut Report) -> Result<(), String> 
     match prop {
         "C01" | "C02" | "C03" | "C09" | "C14" => sem::replay(prop, case, rep),
         "C13" => c13::replay(case, rep),
+        "C04" => walk::replay_c04(case, rep),
+        "C16" => walk::replay_c16(case, rep),
+        "C07" | "C08" | "C18" => stream::replay(prop, case, rep),
+        "C06" => packed::replay(case, rep),
+        "C05" => meta::replay_c05(case, rep),
+        "C10" => meta::replay_c10(case, rep),
+        "C11" => meta::replay_c11(case, rep),
+        "C12" => meta::replay_c12(case, rep),
         _ => Err(format!("unknown property {}", prop)),
     }
 }
